@@ -4,6 +4,7 @@ import (
 	"bufio"
 	"bytes"
 	"fmt"
+	"github.com/keybase/saltpack/encoding/basex"
 	"io"
 	"regexp"
 	"strconv"
@@ -179,6 +180,20 @@ func init() {
 		}
 		if rk, ok := c.A["must_reject"]; ok && err == nil {
 			fs = append(fs, Failure{Kind: "oracle", Key: rk, Desc: c.A["why"] + ": accepted"})
+		}
+		if err == nil {
+			// whatever is accepted carries the canonical encoding of the payload it returns
+			if parts := strings.Split(input, "."); len(parts) >= 3 {
+				var presented []byte
+				for _, ch := range []byte(parts[1]) {
+					if !strings.ContainsRune(" \t\r\n>", rune(ch)) {
+						presented = append(presented, ch)
+					}
+				}
+				if canon := basex.Base62StdEncoding.EncodeToString(body); canon != string(presented) {
+					fs = append(fs, Failure{Kind: "oracle", Key: "dearmor-accepts-corrupt-body", Desc: fmt.Sprintf("accepted a body that is not the canonical encoding of the %d bytes returned: presented %.60q, canonical %.60q", len(body), presented, canon)})
+				}
+			}
 		}
 		return
 	}, trivial: func(c Case) bool { return c.A["input"] == "-" }}
